@@ -260,6 +260,8 @@ class Expect(object):
                             cid = a[1]
                     mattrs = [a for a in mattrs if a[0] != 'c:identifier']
                 vals.append({'name': m.get('name'), 'value32': (v & 0xffffffff) if v is not None else None, 'c_identifier': cid,
+                             # values a 32-bit slot plus its unsigned flag can express; wider ones are the recorded 64-bit finding
+                             'value': v if (v is not None and -2 ** 31 <= v < 2 ** 32) else ANY,
                              'attributes': mattrs})
             e.update(gtype_name=n.get('glib:type-name'), gtype_init=n.get('glib:get-type'), values=vals, error_domain=n.get('glib:error-domain'),
                      methods=self.methods(n))
@@ -425,7 +427,7 @@ class FromTypelib(object):
             vals = []
             for v in b['values']:
                 at = dict(self.tl.attributes_of(v['_offset']))
-                vals.append({'name': v['name'], 'value32': v['value'] & 0xffffffff, 'c_identifier': at.pop('c:identifier', None),
+                vals.append({'name': v['name'], 'value32': v['value'] & 0xffffffff, 'value': v['effective_value'], 'c_identifier': at.pop('c:identifier', None),
                              'attributes': sorted([k, v] for k, v in at.items())})
             out.update(gtype_name=b['gtype_name'], gtype_init=b['gtype_init'], values=vals, error_domain=b.get('error_domain'),
                        methods=[self.function(m, True) for m in b['methods']])
